@@ -16,3 +16,15 @@ CLAIMED['C01'] = ('6/C01', 'Bounded-exhaustive symbolic check per parameter fami
                   'acceptance predicate; a two-step harness checks that the constraints in force at assignment time are applied; the '
                   'Color hex language is decided by a regex->z3 kernel (unsat of the symmetric difference up to length 8/10).',
                   'symbolic execution (CrossHair+z3) of the validators with symbolic constraint configuration and value; regex language equivalence in z3')
+CLAIMED['C03'] = ('6/C03', 'Bounded symbolic check against a reference dispatcher written from the statement: 2 (quick) / 3 (thorough) watchers with '
+                  'symbolic configuration (parameter subset, onlychanged, queued, precedence, args/kwargs mode, slot watcher, one cascading '
+                  'callback) x every program of k=2/3 symbolic operations (set, unwatch, trigger, slot set; unbounded int values); call '
+                  'sequence, old/new/type of every event and the values visible at callback entry are compared after each operation; '
+                  'changes-only filtering is checked on all ordered pairs of an equality-subtle value pool with a three-valued oracle.',
+                  'symbolic execution (CrossHair+z3) of the watcher dispatch code against a reference dispatcher model, path tree exhausted per shard')
+CLAIMED['C04'] = ('6/C04', 'Bounded symbolic check against the reference dispatcher with a context stack: programs of k=3 (quick; plus a nested '
+                  'family of length 4) / 4 (thorough) symbolic operations over set/update/trigger/Event and ENTER/EXIT opcodes for '
+                  'batch_call_watchers, discard_events and update-as-context (nesting depth 2), open contexts closed and compared at the '
+                  'end; two recorded deviations of the implementation are recognised only when the real trace equals the trace of the '
+                  'model variant encoding exactly that deviation.',
+                  'symbolic execution (CrossHair+z3) of batching/trigger/discard code against a reference dispatcher with context stack')
